@@ -276,7 +276,7 @@ func (cl *vCluster) stableNow() bool {
 		if !m.db.rt.IsBootstrapped() || int(m.db.rt.NumMembers()) != len(live) {
 			return false
 		}
-		if m.db.rt.Discovery().NumMembers() != len(live) {
+		if m.db.rt.Discovery().NumMembers() != len(live) || rtMembers(m.db) != len(live) {
 			return false
 		}
 		s := routingSnapshot(m.db)
